@@ -49,6 +49,7 @@ type Result struct {
 	Tape      []uint32       `json:"tape,omitempty"`
 	Tail      []string       `json:"tail,omitempty"`
 	Inconcl   string         `json:"inconclusive,omitempty"`
+	CaseKey   string         `json:"case_key,omitempty"`
 	Crash     string         `json:"crash,omitempty"` // worker died during this run: stderr signature
 	Args      map[string]string `json:"-"`
 }
@@ -548,7 +549,11 @@ func report(prop, tier string, base uint64, t0 time.Time, all []*Result, infra [
 		}
 		if r.Reach {
 			reach++
-			shapes[r.Scenario+":"+r.Shape] = true
+			if r.CaseKey != "" {
+				shapes[r.Scenario+":"+r.CaseKey] = true
+			} else {
+				shapes[r.Scenario+":"+r.Shape] = true
+			}
 		}
 		if r.Reach && len(samples) < 5 && r.Sample != "" && r.Violation == nil {
 			samples = append(samples, map[string]any{"scenario": r.Scenario, "seed": r.Seed, "steps": r.Steps, "case": r.Sample, "faults_fired": r.Stats})
@@ -688,7 +693,7 @@ func confirmAndShrink(prop, tier, worker string, race bool, r *Result, class str
 	best, bestRes := tape, got
 	note := "not shrunk"
 	if !noShrink && len(tape) > 0 {
-		budget := 45 * time.Second
+		budget := 20 * time.Second
 		if tier == "thorough" {
 			budget = 4 * time.Minute
 		}
